@@ -19,7 +19,8 @@ use litep2p::{
                 ConnectionType, KademliaMessage, KademliaPeer, Key, VerifKadDump, VerifKademlia,
                 VerifProbe, VerifProbeEntry,
             },
-            ConfigBuilder, ContentProvider, KademliaEvent, KademliaHandle, Quorum, Record, RecordKey,
+            ConfigBuilder, ContentProvider, IncomingRecordValidationMode, KademliaEvent, KademliaHandle, Quorum, Record,
+            RecordKey, RoutingTableUpdateMode,
         },
         verif::{VerifConnection, VerifServiceInput},
         TransportService,
@@ -50,13 +51,20 @@ const LOCAL_REC: u8 = 77;
 const INBOUND_BASE: u64 = 100_000;
 const BOGUS_BASE: u64 = 50_000;
 const MAX_POOL: u64 = 10;
+/// provider refresh interval of the node under test (tokio time is paused and advanced by hand)
+const REFRESH_SECS: u64 = 1000;
+const REFRESH_MS: u64 = REFRESH_SECS * 1000;
+/// more than WRITE_TIMEOUT, more than READ_TIMEOUT of the executor
+const TIMEOUT_MS: u64 = 16_000;
 
 // ------------------------------------------------------------------ in-memory substream carrier
 
 #[derive(Default)]
 struct CarrierState {
-    /// 0 writes block, 1 writes are accepted, 2 writes fail
+    /// 0 writes block, 1 writes are accepted, 2 writes fail, 3 writes are taken but the flush blocks
     wmode: u8,
+    /// what was written
+    written: Vec<u8>,
     rq: VecDeque<u8>,
     eof: bool,
     rwaker: Option<Waker>,
@@ -67,6 +75,16 @@ struct CarrierState {
 struct Carrier(Arc<Mutex<CarrierState>>);
 
 impl Carrier {
+    /// a future is blocked on this carrier
+    fn awaited(&self) -> bool {
+        let s = self.0.lock().unwrap();
+        s.rwaker.is_some() || s.wwaker.is_some()
+    }
+
+    fn take_written(&self) -> Vec<u8> {
+        std::mem::take(&mut self.0.lock().unwrap().written)
+    }
+
     fn set(&self, wmode: Option<u8>, data: Option<Vec<u8>>, eof: bool) {
         let mut s = self.0.lock().unwrap();
         if let Some(w) = wmode {
@@ -115,13 +133,21 @@ impl AsyncWrite for Carrier {
                 s.wwaker = Some(cx.waker().clone());
                 Poll::Pending
             }
-            1 => Poll::Ready(Ok(buf.len())),
+            1 | 3 => {
+                s.written.extend_from_slice(buf);
+                Poll::Ready(Ok(buf.len()))
+            }
             _ => Poll::Ready(Err(std::io::ErrorKind::BrokenPipe.into())),
         }
     }
-    fn poll_flush(self: Pin<&mut Self>, _: &mut Context<'_>) -> Poll<std::io::Result<()>> {
-        match self.0.lock().unwrap().wmode {
+    fn poll_flush(self: Pin<&mut Self>, cx: &mut Context<'_>) -> Poll<std::io::Result<()>> {
+        let mut s = self.0.lock().unwrap();
+        match s.wmode {
             2 => Poll::Ready(Err(std::io::ErrorKind::BrokenPipe.into())),
+            3 => {
+                s.wwaker = Some(cx.waker().clone());
+                Poll::Pending
+            }
             _ => Poll::Ready(Ok(())),
         }
     }
@@ -142,6 +168,16 @@ enum Msg {
     Invalid,
 }
 
+/// A request read from an inbound substream (composed mode): the record key is a label.
+#[derive(Clone, Debug, PartialEq)]
+enum Req {
+    FindNode(u64),
+    PutValue(u64),
+    GetValue(u64),
+    GetProviders(u64),
+    AddProvider(bool),
+}
+
 #[derive(Clone, Debug, PartialEq)]
 enum Res {
     SendOk,
@@ -154,7 +190,9 @@ enum Res {
 /// Events of `select!` (everything except the served-query records `3 q`).
 #[derive(Clone, Debug, PartialEq)]
 enum Ev {
-    Cmd { q: u64, ctag: u64, qtag: u64, qn: u64, local: bool, dists: Vec<u64>, seeds: Vec<u64> },
+    /// `local`: get_record: a record is in the local store (0/1); provider refresh (ctag 5): 1 + the
+    /// label of the start_providing operation whose key is republished
+    Cmd { q: u64, ctag: u64, qtag: u64, qn: u64, local: u64, dists: Vec<u64>, seeds: Vec<u64> },
     PutToPeers { q: u64, qtag: u64, qn: u64, peers: Vec<u64> },
     Nop,
     Established(u64, bool),
@@ -165,8 +203,25 @@ enum Ev {
     OpenFail(u64),
     DialFail(u64),
     Inbound(u64, u64),
-    /// `how`: 0 the carrier produces the result, 1 the 15 s executor timeout does
-    Fut { id: u64, res: Res, how: u64 },
+    /// What the substream of executor future `id` does. wb: the write side 0 accepts the frame, 1 fails,
+    /// 2 blocks for ever; rb: the read side 0 delivers `msg`, 1 ends, 2 stays silent. `tmo`: the harness
+    /// let 16 s pass with this future in flight (filled in when the event is applied).
+    Fut { id: u64, wb: u64, rb: u64, msg: Option<Msg>, tmo: bool },
+    /// composed mode: the read future of inbound substream `id` delivers a request
+    InReq { id: u64, rq: Req },
+    /// composed mode: stop_providing(key rk)
+    UStop(u64),
+    /// composed mode: the store's refresh timer for key rk fires; q = label of the refresh operation
+    UFire { q: u64, rk: u64 },
+    /// bounded event channel only: the user receives one event
+    Recv,
+    // composed mode (routing table and store computed by the model): user-level events
+    /// uc: 0 find_node, 1 put_record, 2 start_providing, 3 get_record, 4 get_providers;
+    /// rk: label of the record key (put / get / start_providing)
+    UCmd { q: u64, uc: u64, qtag: u64, qn: u64, rk: u64 },
+    UPutToPeers { q: u64, qtag: u64, qn: u64, rk: u64, given: Vec<u64> },
+    UStore(u64),
+    UAddKnown(u64, bool),
 }
 
 fn push_list(out: &mut Vec<u64>, l: &[u64]) {
@@ -210,7 +265,7 @@ impl Ev {
         let mut o = Vec::new();
         match self {
             Ev::Cmd { q, ctag, qtag, qn, local, dists, seeds } => {
-                o.extend([0, *q, *ctag, *qtag, *qn, *local as u64]);
+                o.extend([0, *q, *ctag, *qtag, *qn, *local]);
                 push_list(&mut o, dists);
                 push_list(&mut o, seeds);
             }
@@ -219,6 +274,17 @@ impl Ev {
                 push_list(&mut o, peers);
             }
             Ev::Nop => o.push(2),
+            Ev::Recv => o.push(13),
+            Ev::UCmd { q, uc, qtag, qn, rk } => {
+                o.extend([14, *q, *uc, *qtag, *qn, *rk]);
+                o.extend(target_key(*q, *uc, *rk).iter().map(|b| *b as u64));
+            }
+            Ev::UPutToPeers { q, qtag, qn, rk, given } => {
+                o.extend([15, *q, *qtag, *qn, *rk]);
+                push_list(&mut o, given);
+            }
+            Ev::UStore(rk) => o.extend([16, *rk]),
+            Ev::UAddKnown(p, a) => o.extend([17, *p, *a as u64]),
             Ev::Established(p, a) => o.extend([4, *p, *a as u64]),
             Ev::Closed(p) => o.extend([5, *p]),
             Ev::Kill(p) => o.extend([6, *p]),
@@ -227,18 +293,37 @@ impl Ev {
             Ev::OpenFail(sid) => o.extend([9, *sid]),
             Ev::DialFail(p) => o.extend([10, *p]),
             Ev::Inbound(p, id) => o.extend([11, *p, *id]),
-            Ev::Fut { id, res, how } => {
-                o.extend([12, *id]);
-                match res {
-                    Res::SendOk => o.extend([0, *how]),
-                    Res::Assume => o.extend([1, *how]),
-                    Res::SendFail => o.extend([2, *how]),
-                    Res::ReadFail => o.extend([3, *how]),
-                    Res::Read(m) => {
-                        o.extend([4, *how]);
-                        m.encode(&mut o);
-                    }
+            Ev::Fut { id, wb, rb, msg, tmo } => {
+                let rb = if *rb == 0 && msg.is_none() { 1 } else { *rb };
+                o.extend([12, *id, *wb, rb, *tmo as u64]);
+                if rb == 0 {
+                    msg.as_ref().unwrap().encode(&mut o);
                 }
+            }
+            Ev::InReq { id, rq } => {
+                o.extend([19, *id]);
+                let key = |rk: u64| Key::new(Sys::key_of(rk)).verif_raw().iter().map(|b| *b as u64).collect::<Vec<u64>>();
+                match rq {
+                    Req::FindNode(rk) => {
+                        o.extend([0, *rk]);
+                        o.extend(key(*rk));
+                    }
+                    Req::PutValue(rk) => o.extend([1, *rk]),
+                    Req::GetValue(rk) => {
+                        o.extend([2, *rk]);
+                        o.extend(key(*rk));
+                    }
+                    Req::GetProviders(rk) => {
+                        o.extend([3, *rk]);
+                        o.extend(key(*rk));
+                    }
+                    Req::AddProvider(v) => o.extend([4, *v as u64]),
+                }
+            }
+            Ev::UStop(rk) => o.extend([20, *rk]),
+            Ev::UFire { q, rk } => {
+                o.extend([21, *q, *rk]);
+                o.extend(Key::new(Sys::key_of(*rk)).verif_raw().iter().map(|b| *b as u64));
             }
         }
         o
@@ -281,6 +366,12 @@ struct Header {
     mgr: Vec<(u64, u64)>,
     /// peers put into the routing table before the first event (ignored by the model)
     known: Vec<u64>,
+    /// capacity of the event channel towards the handle; 0 = the shipped one (never full here)
+    cap: u64,
+    /// 1 = composed mode: the case carries the peers' Kademlia keys, commands are user-level events
+    mode: u64,
+    /// number of peer labels 0..pool the case may use (their keys are listed in composed mode)
+    pool: u64,
 }
 
 fn encode_case(h: &Header, events: &[Vec<u64>]) -> Vec<u64> {
@@ -289,6 +380,17 @@ fn encode_case(h: &Header, events: &[Vec<u64>]) -> Vec<u64> {
         c.extend([*p, *v]);
     }
     push_list(&mut c, &h.known);
+    c.push(h.cap);
+    c.push(h.mode);
+    if h.mode & 1 == 1 {
+        let labels: Vec<u64> = (0..h.pool).chain([LOCAL]).collect();
+        c.push(labels.len() as u64);
+        for l in labels {
+            c.push(l);
+            let p = if l == LOCAL { mk_peer(500) } else { mk_peer(l) };
+            c.extend(Key::from(p).verif_raw().iter().map(|b| *b as u64));
+        }
+    }
     c.push(events.len() as u64);
     for e in events {
         c.extend(e);
@@ -315,6 +417,19 @@ fn decode_case(c: &[u64]) -> Option<(Header, Vec<Ev>)> {
     let _local = r.n()?;
     let mgr = r.pairs()?;
     let known = r.list()?;
+    let cap = r.n()?;
+    let mode = r.n()?;
+    let mut pool = MAX_POOL;
+    if mode & 1 == 1 {
+        let nk = r.n()? as usize;
+        if nk == 0 || nk > 201 {
+            return None;
+        }
+        pool = nk as u64 - 1;
+        for _ in 0..nk * 33 {
+            r.n()?;
+        }
+    }
     let n = r.n()? as usize;
     let mut evs = Vec::new();
     for _ in 0..n {
@@ -324,13 +439,24 @@ fn decode_case(c: &[u64]) -> Option<(Header, Vec<Ev>)> {
                 ctag: r.n()?,
                 qtag: r.n()?,
                 qn: r.n()?,
-                local: r.n()? != 0,
+                local: r.n()?,
                 dists: r.list()?,
                 seeds: r.list()?,
             },
             1 => Ev::PutToPeers { q: r.n()?, qtag: r.n()?, qn: r.n()?, peers: r.list()? },
             2 => Ev::Nop,
-            3 => {
+            13 => Ev::Recv,
+            14 => {
+                let e = Ev::UCmd { q: r.n()?, uc: r.n()?, qtag: r.n()?, qn: r.n()?, rk: r.n()? };
+                for _ in 0..32 {
+                    r.n()?;
+                }
+                e
+            }
+            15 => Ev::UPutToPeers { q: r.n()?, qtag: r.n()?, qn: r.n()?, rk: r.n()?, given: r.list()? },
+            16 => Ev::UStore(r.n()?),
+            17 => Ev::UAddKnown(r.n()?, r.n()? != 0),
+            3 | 18 => {
                 r.n()?;
                 continue;
             }
@@ -344,17 +470,49 @@ fn decode_case(c: &[u64]) -> Option<(Header, Vec<Ev>)> {
             11 => Ev::Inbound(r.n()?, r.n()?),
             12 => {
                 let id = r.n()?;
-                let rtag = r.n()?;
-                let how = r.n()?;
-                let res = match rtag {
-                    0 => Res::SendOk,
-                    1 => Res::Assume,
-                    2 => Res::SendFail,
-                    3 => Res::ReadFail,
-                    4 => Res::Read(decode_msg(&mut r)?),
+                let wb = r.n()?;
+                let rb = r.n()?;
+                let _tmo = r.n()?;
+                let msg = if rb == 0 { Some(decode_msg(&mut r)?) } else { None };
+                Ev::Fut { id, wb, rb, msg, tmo: false }
+            }
+            19 => {
+                let id = r.n()?;
+                let mut skip_key = |r: &mut Cursor| -> Option<()> {
+                    for _ in 0..32 {
+                        r.n()?;
+                    }
+                    Some(())
+                };
+                let rq = match r.n()? {
+                    0 => {
+                        let rk = r.n()?;
+                        skip_key(&mut r)?;
+                        Req::FindNode(rk)
+                    }
+                    1 => Req::PutValue(r.n()?),
+                    2 => {
+                        let rk = r.n()?;
+                        skip_key(&mut r)?;
+                        Req::GetValue(rk)
+                    }
+                    3 => {
+                        let rk = r.n()?;
+                        skip_key(&mut r)?;
+                        Req::GetProviders(rk)
+                    }
+                    4 => Req::AddProvider(r.n()? != 0),
                     _ => return None,
                 };
-                Ev::Fut { id, res, how }
+                Ev::InReq { id, rq }
+            }
+            20 => Ev::UStop(r.n()?),
+            21 => {
+                let e = Ev::UFire { q: r.n()?, rk: r.n()? };
+                for _ in 0..32 {
+                    r.n()?;
+                }
+                e
             }
             _ => return None,
         };
@@ -363,10 +521,19 @@ fn decode_case(c: &[u64]) -> Option<(Header, Vec<Ev>)> {
     if r.1 != c.len() {
         return None;
     }
-    Some((Header { k, mgr, known }, evs))
+    Some((Header { k, mgr, known, cap, mode, pool }, evs))
 }
 
 // ------------------------------------------------------------------ the system under test
+
+/// 256-bit Kademlia key of the target of a composed-mode command.
+fn target_key(q: u64, uc: u64, rk: u64) -> [u8; 32] {
+    match uc {
+        0 => Key::from(mk_peer(1_000 + q)).verif_raw(),
+        1 | 2 | 3 => Key::new(Sys::key_of(rk)).verif_raw(),
+        _ => Key::new(Sys::key_of(q)).verif_raw(),
+    }
+}
 
 fn mk_peer(i: u64) -> PeerId {
     let mut b = vec![0x00u8, 0x24, 0x08, 0x01, 0x12, 0x20];
@@ -427,6 +594,23 @@ struct Sys {
     sub_peer: HashMap<u64, u64>,
     /// substream id -> real query id of the action it was opened for
     fut_query: HashMap<u64, usize>,
+    mode: u64,
+    /// milliseconds the paused clock has been advanced
+    now_ms: u64,
+    /// base mode: start_providing operations: (label, refresh deadline, qtag, qn)
+    provided: Vec<(u64, u64, u64, u64)>,
+    /// composed mode: keys this node provides (key label -> quorum) and the armed refresh timers of the
+    /// store (key label, deadline)
+    prov: HashMap<u64, (u64, u64)>,
+    timers: Vec<(u64, u64)>,
+    /// composed mode: replies written to inbound substreams while the current event was handled
+    replies: Vec<(bool, Vec<u64>)>,
+    cap: u64,
+    /// bounded channel: the loop is blocked in a handler on a full event channel
+    parked: bool,
+    recv_buf: Vec<KademliaEvent>,
+    last_recv_none: bool,
+    probe_back: Vec<VerifProbeEntry>,
 }
 
 impl Sys {
@@ -434,7 +618,7 @@ impl Sys {
         if h.k == 0 || h.k > 64 {
             return None;
         }
-        let peers: Vec<PeerId> = (0..MAX_POOL).map(mk_peer).collect();
+        let peers: Vec<PeerId> = (0..h.pool).map(mk_peer).collect();
         let mut index: HashMap<PeerId, u64> = peers.iter().enumerate().map(|(i, p)| (*p, i as u64)).collect();
         let local = mk_peer(500);
         index.insert(local, LOCAL);
@@ -448,9 +632,21 @@ impl Sys {
             ProtocolCodec::UnsignedVarint(Some(70 * 1024)),
             Duration::from_secs(3600 * 24),
         );
-        let (config, handle) = ConfigBuilder::new().with_replication_factor(h.k as usize).build();
+        let mut builder = ConfigBuilder::new()
+            .with_replication_factor(h.k as usize)
+            .with_provider_refresh_interval(Duration::from_secs(REFRESH_SECS));
+        if h.mode & 4 != 0 {
+            builder = builder.with_routing_table_update_mode(RoutingTableUpdateMode::Manual);
+        }
+        if h.mode & 8 != 0 {
+            builder = builder.with_incoming_records_validation_mode(IncomingRecordValidationMode::Manual);
+        }
+        let (config, handle) = if h.cap == 0 { builder.build() } else { builder.verif_build_bounded(h.cap as usize) };
         let probe = VerifProbe::default();
-        let kad = VerifKademlia::new(service, config, probe.clone());
+        let mut kad = VerifKademlia::new(service, config, probe.clone());
+        if h.mode & 2 != 0 {
+            kad.verif_zero_peer_timeout();
+        }
         let fut: Pin<Box<dyn Future<Output = ()>>> = Box::pin(async move {
             let _ = kad.run().await;
         });
@@ -475,19 +671,34 @@ impl Sys {
             inflight: BTreeMap::new(),
             sub_peer: HashMap::new(),
             fut_query: HashMap::new(),
+            mode: h.mode,
+            now_ms: 0,
+            provided: Vec::new(),
+            prov: HashMap::new(),
+            timers: Vec::new(),
+            replies: Vec::new(),
+            cap: h.cap,
+            parked: false,
+            recv_buf: Vec::new(),
+            last_recv_none: false,
+            probe_back: Vec::new(),
         };
         // routing table, then the manager's beliefs (add_known_peer goes through the manager too)
         for p in &h.known {
-            if *p >= MAX_POOL {
+            if *p >= h.pool {
                 return None;
             }
             let peer = s.peers[*p as usize];
             s.handle.try_add_known_peer(peer, vec![s.peer_addr(*p)]).ok()?;
         }
         s.poll();
-        s.probe.take();
+        for en in s.probe.take() {
+            if let VerifProbeEntry::AtSelect(d) = en {
+                s.dump = d;
+            }
+        }
         for (p, v) in &h.mgr {
-            if *p >= MAX_POOL || *v > 3 {
+            if *p >= h.pool || *v > 3 {
                 return None;
             }
             s.manager.verif_force_peer(s.peers[*p as usize], *v as usize, s.peer_addr(*p));
@@ -500,7 +711,7 @@ impl Sys {
     }
 
     fn peer(&self, p: u64) -> PeerId {
-        if p < MAX_POOL {
+        if (p as usize) < self.peers.len() {
             self.peers[p as usize]
         } else if p == LOCAL {
             mk_peer(500)
@@ -613,6 +824,52 @@ impl Sys {
         varint_frame(&payload)
     }
 
+    /// A request of a remote peer about the record key with label `rk`.
+    fn req_bytes(&self, sender: u64, rq: &Req) -> Vec<u8> {
+        let payload: Vec<u8> = match rq {
+            Req::FindNode(rk) => KademliaMessage::find_node(Self::key_of(*rk).to_vec()).to_vec(),
+            Req::PutValue(rk) => KademliaMessage::put_value(Record {
+                key: Self::key_of(*rk),
+                value: vec![LOCAL_REC],
+                publisher: None,
+                expires: None,
+            })
+            .to_vec(),
+            Req::GetValue(rk) => KademliaMessage::get_record(Self::key_of(*rk)).to_vec(),
+            Req::GetProviders(rk) => KademliaMessage::get_providers_request(Self::key_of(*rk)).to_vec(),
+            Req::AddProvider(valid) => {
+                let who = if *valid { self.peer(sender) } else { mk_peer(424_242) };
+                KademliaMessage::add_provider(
+                    RecordKey::from(vec![250u8, 1, 2]),
+                    ContentProvider { peer: who, addresses: vec![self.addrs[0].clone()] },
+                )
+                .to_vec()
+            }
+        };
+        varint_frame(&payload)
+    }
+
+    /// The reply the node wrote to inbound substream `id`: (a record is attached, the closer peers).
+    fn take_reply(&self, id: u64) -> Option<(bool, Vec<u64>)> {
+        let bytes = self.carriers.get(&id)?.take_written();
+        // unsigned-varint length prefix
+        let mut i = 0;
+        while i < bytes.len() && bytes[i] & 0x80 != 0 {
+            i += 1;
+        }
+        if i >= bytes.len() {
+            return None;
+        }
+        let body = bytes::BytesMut::from(&bytes[i + 1..]);
+        let labels = |ps: &Vec<KademliaPeer>| ps.iter().map(|p| self.idx(&p.verif_peer())).collect::<Vec<u64>>();
+        match KademliaMessage::from_bytes(body, 64)? {
+            KademliaMessage::FindNode { peers, .. } => Some((false, labels(&peers))),
+            KademliaMessage::GetRecord { record, peers, .. } => Some((record.is_some(), labels(&peers))),
+            KademliaMessage::GetProviders { peers, .. } => Some((false, labels(&peers))),
+            _ => None,
+        }
+    }
+
     fn quorum(qtag: u64, qn: u64) -> Quorum {
         match qtag {
             0 => Quorum::All,
@@ -649,8 +906,17 @@ impl Sys {
     async fn apply(&mut self, e: &Ev, trace: &mut Vec<u64>) -> Vec<Vec<u64>> {
         let mut e = e.clone();
         let before_len = self.dump.executor_len;
+        #[allow(unused_assignments)]
         let mut real_q: Option<usize> = None;
         let mut touched: Option<u64> = None;
+        // bounded channel: does this event make the loop run a handler?
+        let mut expect = true;
+        // select! iterations this event causes (get_record with a local record = store_record + get_record)
+        let mut iterations = 1usize;
+        let mut refresh_label: Option<u64> = None;
+        let mut want_reply: Option<u64> = None;
+        let mut applied: Option<(u64, u64, bool)> = None;
+        self.replies.clear();
         match &e {
             Ev::Cmd { q, ctag, qtag, qn, local, .. } => {
                 let quorum = Self::quorum(*qtag, *qn);
@@ -661,9 +927,27 @@ impl Sys {
                         .handle
                         .try_put_record(Record { key, value: vec![9], publisher: None, expires: None }, quorum)
                         .ok(),
-                    2 => self.handle.start_providing(key, quorum).now_or_never(),
+                    2 => {
+                        self.provided.push((*q, self.now_ms + REFRESH_MS, *qtag, *qn));
+                        self.handle.start_providing(key, quorum).now_or_never()
+                    }
+                    5 => {
+                        // the store's refresh timer of an earlier start_providing fires
+                        let now = self.now_ms;
+                        if let Some(entry) = self.provided.iter_mut().find(|x| x.0 + 1 == *local) {
+                            let wait = entry.1.saturating_sub(now) + 1;
+                            entry.1 = now + wait + REFRESH_MS;
+                            tokio::time::advance(Duration::from_millis(wait)).await;
+                            self.now_ms += wait;
+                            refresh_label = Some(*q);
+                        } else {
+                            expect = false;
+                        }
+                        None
+                    }
                     3 => {
-                        if *local {
+                        if *local != 0 {
+                            iterations = 2;
                             let _ = self.handle.try_store_record(Record {
                                 key: key.clone(),
                                 value: vec![LOCAL_REC],
@@ -695,6 +979,113 @@ impl Sys {
                     real_q = Some(r.0);
                 }
             }
+            Ev::UCmd { q, uc, qtag, qn, rk } => {
+                let quorum = Self::quorum(*qtag, *qn);
+                let r = match uc {
+                    0 => self.handle.try_find_node(mk_peer(1_000 + q)).ok(),
+                    1 => self
+                        .handle
+                        .try_put_record(
+                            Record { key: Self::key_of(*rk), value: vec![LOCAL_REC], publisher: None, expires: None },
+                            quorum,
+                        )
+                        .ok(),
+                    2 => {
+                        // put_local_provider arms a refresh timer of the store; no two timers share a
+                        // deadline (they are fired one at a time)
+                        while self.timers.iter().any(|t| t.1.abs_diff(self.now_ms + REFRESH_MS) < 3) {
+                            if self.timers.iter().any(|t| t.1 <= self.now_ms + 3) {
+                                // the clock cannot be moved without firing a timer: the command is not issued
+                                return Vec::new();
+                            }
+                            tokio::time::advance(Duration::from_millis(1)).await;
+                            self.now_ms += 1;
+                        }
+                        self.prov.insert(*rk, (*qtag, *qn));
+                        self.timers.push((*rk, self.now_ms + REFRESH_MS));
+                        self.handle.start_providing(Self::key_of(*rk), quorum).now_or_never()
+                    }
+                    3 => self.handle.try_get_record(Self::key_of(*rk), quorum).ok(),
+                    _ => self.handle.get_providers(Self::key_of(*q)).now_or_never(),
+                };
+                if let Some(r) = r {
+                    self.qmap.insert(r.0, *q);
+                    real_q = Some(r.0);
+                }
+            }
+            Ev::UPutToPeers { q, qtag, qn, rk, given } => {
+                let r = self
+                    .handle
+                    .try_put_record_to_peers(
+                        Record { key: Self::key_of(*rk), value: vec![LOCAL_REC], publisher: None, expires: None },
+                        given.iter().map(|p| self.peer(*p)).collect(),
+                        false,
+                        Self::quorum(*qtag, *qn),
+                    )
+                    .ok();
+                if let Some(r) = r {
+                    self.qmap.insert(r.0, *q);
+                    real_q = Some(r.0);
+                }
+            }
+            Ev::UStop(rk) => {
+                self.prov.remove(rk);
+                let _ = self.handle.stop_providing(Self::key_of(*rk)).now_or_never();
+            }
+            Ev::UFire { q, rk } => {
+                // the earliest timer of the store fires (only that one: deadlines are kept apart)
+                let first = self.timers.iter().enumerate().min_by_key(|(_, t)| t.1).map(|(i, t)| (i, *t));
+                match first {
+                    Some((i, (key, deadline))) if key == *rk => {
+                        self.timers.remove(i);
+                        // every other timer is due at least 3 ms later, every timer was armed before
+                        // `deadline`: the one armed by the refresh keeps that distance too
+                        let at = deadline.max(self.now_ms) + 2;
+                        let wait = at - self.now_ms;
+                        tokio::time::advance(Duration::from_millis(wait)).await;
+                        self.now_ms += wait;
+                        if self.prov.contains_key(rk) {
+                            self.timers.push((*rk, self.now_ms + REFRESH_MS));
+                            refresh_label = Some(*q);
+                        }
+                    }
+                    _ => expect = false,
+                }
+            }
+            Ev::InReq { id, rq } => {
+                expect = false;
+                let live = self.carriers.get(id).map(|c| c.awaited()).unwrap_or(false);
+                if let (Some(c), Some(FKind::InRead), true) = (self.carriers.get(id).cloned(), self.inflight.get(id).copied(), live) {
+                    expect = true;
+                    let sender = self.sub_peer.get(id).copied().unwrap_or(0);
+                    c.set(None, Some(self.req_bytes(sender, rq)), false);
+                    self.inflight.remove(id);
+                    let reply = match rq {
+                        Req::FindNode(_) | Req::GetValue(_) | Req::GetProviders(_) => Some(FKind::InSend),
+                        Req::PutValue(_) => Some(FKind::InSendEat),
+                        Req::AddProvider(_) => None,
+                    };
+                    if let Some(k) = reply {
+                        self.inflight.insert(*id, k);
+                        touched = Some(*id);
+                        if k == FKind::InSend {
+                            want_reply = Some(*id);
+                        }
+                    }
+                }
+            }
+            Ev::UStore(rk) => {
+                let _ = self.handle.try_store_record(Record {
+                    key: Self::key_of(*rk),
+                    value: vec![LOCAL_REC],
+                    publisher: None,
+                    expires: None,
+                });
+            }
+            Ev::UAddKnown(p, addr) => {
+                let addrs = if *addr { vec![self.peer_addr(*p % 200)] } else { vec![] };
+                let _ = self.handle.try_add_known_peer(self.peer(*p), addrs);
+            }
             Ev::Nop => {
                 let _ = self.handle.try_store_record(Record {
                     key: RecordKey::from(vec![251u8, 1]),
@@ -704,6 +1095,7 @@ impl Sys {
                 });
             }
             Ev::Established(p, alive) => {
+                expect = !self.conns.contains_key(p);
                 if !self.conns.contains_key(p) {
                     let cid = self.next_cid;
                     self.next_cid += 1;
@@ -716,17 +1108,20 @@ impl Sys {
                 }
             }
             Ev::Closed(p) => {
+                expect = self.conns.contains_key(p);
                 if let Some(c) = self.conns.remove(p) {
                     self.input.connection_closed(self.peer(*p), &c);
                 }
             }
             Ev::Kill(p) => {
+                expect = false;
                 if let Some(c) = self.conns.get_mut(p) {
                     c.kill();
                 }
             }
             Ev::Mgr(p, v) => {
-                if *p < MAX_POOL && *v <= 3 {
+                expect = false;
+                if (*p as usize) < self.peers.len() && *v <= 3 {
                     self.manager.verif_force_peer(self.peer(*p), *v as usize, self.peer_addr(*p));
                 }
             }
@@ -749,8 +1144,11 @@ impl Sys {
                 self.input.dial_failure(self.peer(*p), vec![self.peer_addr(*p % 200)]);
             }
             Ev::Inbound(p, id) => {
+                expect = !self.carriers.contains_key(id);
                 if !self.carriers.contains_key(id) {
                     let carrier = Carrier::default();
+                    // the reply is taken (and kept for comparison) but not flushed until the environment says so
+                    carrier.set(Some(3), None, false);
                     self.carriers.insert(*id, carrier.clone());
                     self.sub_peer.insert(*id, *p);
                     let conn = self.conns.get(p).unwrap_or(&self.dummy);
@@ -758,69 +1156,114 @@ impl Sys {
                     self.inflight.insert(*id, FKind::InRead);
                 }
             }
-            Ev::Fut { id, res, how } => {
-                if let (Some(c), Some(kind)) = (self.carriers.get(id).cloned(), self.inflight.get(id).copied()) {
+            Ev::Recv => {
+                expect = false;
+                let waker = futures::task::noop_waker();
+                let mut cx = Context::from_waker(&waker);
+                match Pin::new(&mut self.handle).poll_next(&mut cx) {
+                    Poll::Ready(Some(ev)) => {
+                        self.recv_buf.push(ev);
+                        self.last_recv_none = false;
+                    }
+                    _ => self.last_recv_none = true,
+                }
+            }
+            Ev::Fut { id, wb, rb, msg, .. } => {
+                expect = false;
+                let live = self.carriers.get(id).map(|c| c.awaited()).unwrap_or(false);
+                if let (Some(c), Some(kind), true) = (self.carriers.get(id).cloned(), self.inflight.get(id).copied(), live || self.cap == 0) {
                     let sender = self.sub_peer.get(id).copied().unwrap_or(0);
-                    let by_timeout = *how == 1 && self.inflight.len() == 1;
-                    let valid = matches!(
-                        (kind, res),
-                        (FKind::ReqResp, Res::SendFail | Res::Read(_) | Res::ReadFail)
-                            | (FKind::ReqEat, Res::SendFail | Res::Read(_) | Res::Assume)
-                            | (FKind::Send | FKind::InSend, Res::SendOk | Res::SendFail)
-                            | (FKind::InRead, Res::Read(_) | Res::ReadFail)
-                            | (FKind::InSendEat, Res::SendOk | Res::Assume)
-                    );
-                    if valid {
-                        let write_stage = matches!(res, Res::SendFail) || (kind == FKind::InSendEat && *res == Res::Assume);
-                        match res {
-                            Res::SendOk => c.set(Some(1), None, false),
-                            _ if write_stage => {
-                                if by_timeout {
-                                    tokio::time::advance(Duration::from_secs(16)).await;
-                                } else {
-                                    c.set(Some(2), None, false)
-                                }
+                    // a timeout can be played only when no other future would time out with it
+                    let sole = self.inflight.len() == 1
+                        && !self.timers.iter().any(|t| t.1 <= self.now_ms + 2 * TIMEOUT_MS)
+                        && !self.provided.iter().any(|t| t.1 <= self.now_ms + 2 * TIMEOUT_MS);
+                    let (mut wb, mut rb) = (*wb, *rb);
+                    if rb == 0 && msg.is_none() {
+                        rb = 1;
+                    }
+                    let mut timed = false;
+                    expect = true;
+                    let writes = kind != FKind::InRead;
+                    if writes {
+                        match wb {
+                            0 => c.set(Some(1), None, false),
+                            2 if sole => {
+                                tokio::time::advance(Duration::from_millis(TIMEOUT_MS)).await;
+                                self.now_ms += TIMEOUT_MS;
+                                timed = true;
                             }
-                            Res::Assume | Res::ReadFail => {
-                                // the request goes out (outbound futures), the answer never comes
-                                let w = if kind == FKind::InRead { None } else { Some(1) };
-                                if by_timeout {
-                                    c.set(w, None, false);
-                                    self.poll();
-                                    tokio::time::advance(Duration::from_secs(16)).await;
-                                } else {
-                                    c.set(w, None, true)
-                                }
+                            _ => {
+                                wb = 1;
+                                c.set(Some(2), None, false)
                             }
-                            Res::Read(m) => {
-                                let bytes = self.msg_bytes(sender, m);
-                                c.set(if kind == FKind::InRead { None } else { Some(1) }, Some(bytes), false)
-                            }
-                            _ => {}
                         }
-                        self.inflight.remove(id);
-                        // the reply future of an inbound request reuses the substream
-                        if kind == FKind::InRead {
-                            if let Res::Read(m) = res {
-                                let reply = match m {
-                                    Msg::FindNode(_) => Some(FKind::InSend),
-                                    Msg::PutValue => Some(FKind::InSendEat),
-                                    Msg::GetRecord { haskey: true, .. } => Some(FKind::InSend),
-                                    Msg::GetProviders { haskey: true, .. } => Some(FKind::InSend),
-                                    _ => None,
-                                };
-                                if let Some(k) = reply {
-                                    self.inflight.insert(*id, k);
-                                    touched = Some(*id);
-                                }
+                    }
+                    let reads = kind == FKind::InRead || (matches!(kind, FKind::ReqResp | FKind::ReqEat) && wb == 0);
+                    if reads {
+                        match rb {
+                            0 => c.set(None, Some(self.msg_bytes(sender, msg.as_ref().unwrap())), false),
+                            2 if sole => {
+                                // the request goes out (outbound futures), the answer never comes
+                                self.poll();
+                                tokio::time::advance(Duration::from_millis(TIMEOUT_MS)).await;
+                                self.now_ms += TIMEOUT_MS;
+                                timed = true;
                             }
+                            _ => {
+                                rb = 1;
+                                c.set(None, None, true)
+                            }
+                        }
+                    }
+                    applied = Some((wb, rb, timed));
+                    self.inflight.remove(id);
+                    // the reply future of an inbound request reuses the substream
+                    if kind == FKind::InRead && rb == 0 {
+                        let reply = match msg.as_ref().unwrap() {
+                            Msg::FindNode(_) => Some(FKind::InSend),
+                            Msg::PutValue => Some(FKind::InSendEat),
+                            Msg::GetRecord { haskey: true, .. } => Some(FKind::InSend),
+                            Msg::GetProviders { haskey: true, .. } => Some(FKind::InSend),
+                            _ => None,
+                        };
+                        if let Some(k) = reply {
+                            self.inflight.insert(*id, k);
+                            touched = Some(*id);
                         }
                     }
                 }
             }
         }
+        if let (Ev::Fut { wb, rb, tmo, .. }, Some((w, r, t))) = (&mut e, applied) {
+            *wb = w;
+            *rb = r;
+            *tmo = t;
+        }
         self.poll();
-        self.collect(&mut e, real_q, before_len, touched, trace)
+        if let Some(id) = want_reply {
+            if let Some(r) = self.take_reply(id) {
+                self.replies.push(r);
+            }
+        }
+        if let Some(label) = refresh_label {
+            // the internal query id drawn from the shared counter: the one the loop reports and the
+            // harness has not seen yet
+            let entries = self.probe.take();
+            let mut fresh: Vec<usize> = Vec::new();
+            for en in &entries {
+                match en {
+                    VerifProbeEntry::Action { query, .. } => fresh.push(*query),
+                    VerifProbeEntry::AtSelect(d) => fresh.extend(d.queries.iter().map(|x| x.query.0)),
+                }
+            }
+            fresh.retain(|r| !self.qmap.contains_key(r));
+            if let Some(r) = fresh.iter().min() {
+                self.qmap.insert(*r, label);
+                real_q = Some(*r);
+            }
+            self.probe_back = entries;
+        }
+        self.collect(&mut e, real_q, before_len, touched, if expect { iterations } else { 0 }, trace)
     }
 
     fn collect(
@@ -829,10 +1272,17 @@ impl Sys {
         real_q: Option<usize>,
         before_len: usize,
         touched: Option<u64>,
+        expect: usize,
         trace: &mut Vec<u64>,
     ) -> Vec<Vec<u64>> {
-        let entries = self.probe.take();
-        let events = self.drain_events();
+        let mut entries = std::mem::take(&mut self.probe_back);
+        entries.extend(self.probe.take());
+        let saw_select = matches!(entries.last(), Some(VerifProbeEntry::AtSelect(_)));
+        let events = if self.cap == 0 { self.drain_events() } else { std::mem::take(&mut self.recv_buf) };
+        if self.cap > 0 {
+            let selects = entries.iter().filter(|x| matches!(x, VerifProbeEntry::AtSelect(_))).count();
+            self.parked = if expect > 0 { selects < expect } else { self.parked && !saw_select };
+        }
         for c in self.conns.values_mut() {
             c.take_open_requests();
         }
@@ -844,7 +1294,7 @@ impl Sys {
             }
         }
         // a future the harness expected but the loop did not create
-        if let Some(id) = touched {
+        if let (Some(id), true) = (touched, saw_select || self.cap == 0) {
             let grew = match e {
                 Ev::Opened(..) => self.dump.executor_len > before_len,
                 _ => self.dump.executor_len >= before_len,
@@ -855,8 +1305,8 @@ impl Sys {
         }
         // oracle fields
         match e {
-            Ev::Cmd { q, ctag, dists, seeds, .. } => {
-                *dists = self.dists(*q, *ctag);
+            Ev::Cmd { q, ctag, local, dists, seeds, .. } => {
+                *dists = if *ctag == 5 { self.dists(local.saturating_sub(1), 2) } else { self.dists(*q, *ctag) };
                 let mut s: Vec<u64> = Vec::new();
                 if let Some(r) = real_q {
                     if let Some(st) = self.dump.queries.iter().find(|x| x.query.0 == r) {
@@ -892,7 +1342,12 @@ impl Sys {
         let mut outs: Vec<Vec<u64>> = events[..split].iter().map(|ev| self.enc_event(ev)).collect();
         let mut rest = events[split..].iter();
         let mut serves = Vec::new();
+        // zero peer timeout: time passes before every next_action call
+        let stale = self.mode & 2 != 0;
         for (kind, query, peers) in &actions {
+            if stale {
+                serves.push(vec![18, 1]);
+            }
             serves.push(vec![3, self.qlabel(*query)]);
             if *kind == 2 || *kind == 4 {
                 let mut o = vec![10, self.qlabel(*query)];
@@ -904,12 +1359,31 @@ impl Sys {
                 }
             }
         }
-        trace.push(1);
-        trace.push(outs.len() as u64);
-        for o in outs {
-            trace.extend(o);
+        if self.cap == 0 {
+            trace.push(1);
+            trace.push(outs.len() as u64);
+            for o in outs {
+                trace.extend(o);
+            }
+            self.enc_dump(trace);
+            if self.mode & 1 == 1 {
+                self.enc_rt_store(trace);
+            }
+        } else {
+            // bounded channel: what the user received; the snapshot only when the loop waits in select!
+            trace.push(1);
+            trace.push(self.parked as u64);
+            trace.push(events.len() as u64);
+            for ev in &events {
+                trace.extend(self.enc_event(ev));
+            }
+            if !self.parked {
+                self.enc_dump(trace);
+            }
         }
-        self.enc_dump(trace);
+        if stale {
+            serves.push(vec![18, 1]);
+        }
         let mut out = vec![e.encode()];
         out.extend(serves);
         out
@@ -1042,6 +1516,62 @@ impl Sys {
         }
     }
 
+    /// composed mode: the routing table (non-empty buckets) and the keys of the local store
+    fn enc_rt_store(&self, out: &mut Vec<u64>) {
+        let d = &self.dump;
+        out.push(d.routing_table.len() as u64);
+        for (index, nodes) in &d.routing_table {
+            out.push(*index as u64);
+            out.push(nodes.len() as u64);
+            for node in nodes {
+                // connection as the C16 model numbers it: NotConnected 0, Connected 1, CanConnect 2, CannotConnect 3
+                use litep2p::protocol::libp2p::kademlia::verif::ConnectionType as Ct;
+                let conn = match node.connection {
+                    Ct::NotConnected => 0u64,
+                    Ct::Connected => 1,
+                    Ct::CanConnect => 2,
+                    Ct::CannotConnect => 3,
+                };
+                out.extend([self.idx(&node.peer), node.has_addresses as u64, conn]);
+            }
+        }
+        let mut keys: Vec<u64> = d
+            .store_keys
+            .iter()
+            .map(|k| match k.as_slice() {
+                [a, b, 7, 7] => *a as u64 + 256 * *b as u64,
+                [250, 1, 2] => 250,
+                _ => 999,
+            })
+            .collect();
+        keys.sort();
+        push_list(out, &keys);
+        let mut provs: Vec<u64> = d
+            .local_providers
+            .iter()
+            .map(|k| match k.as_slice() {
+                [a, b, 7, 7] => *a as u64 + 256 * *b as u64,
+                _ => 999,
+            })
+            .collect();
+        provs.sort();
+        push_list(out, &provs);
+        out.push(d.refresh_timers as u64);
+        out.push(self.replies.len() as u64);
+        for (found, peers) in &self.replies {
+            out.push(*found as u64);
+            push_list(out, peers);
+        }
+    }
+
+    fn live_futs(&self) -> Vec<(u64, FKind)> {
+        self.inflight
+            .iter()
+            .filter(|(id, _)| self.cap == 0 || self.carriers.get(*id).map(|c| c.awaited()).unwrap_or(false))
+            .map(|(a, b)| (*a, *b))
+            .collect()
+    }
+
     // ---- what the environment still owes, read from the last snapshot ----
     fn owed_dials(&self) -> Vec<u64> {
         let mut v: Vec<u64> =
@@ -1076,13 +1606,27 @@ fn run_stored(c: &[u64]) -> Option<(Vec<u64>, Vec<u64>)> {
     // in a task that never yields, i.e. delay events of long histories
     rt.block_on(tokio::task::unconstrained(async {
         let mut s = Sys::new(&h)?;
-        let mut trace = vec![1u64];
+        let mut trace = vec![if h.mode & 1 == 1 { 3u64 } else if h.cap == 0 { 1u64 } else { 2u64 }];
         let mut events = Vec::new();
         for e in &evs {
             events.extend(s.apply(e, &mut trace).await);
         }
         Some((encode_case(&h, &events), trace))
     }))
+}
+
+/// The behaviour of the substream that makes a future of this kind end with `res`
+/// (`how` 1: by the executor timeout instead of an error).
+fn fut_ev(id: u64, kind: Option<FKind>, res: Res, how: u64) -> Ev {
+    let t = if how == 1 { 2 } else { 1 };
+    let (wb, rb, msg) = match res {
+        Res::SendOk => (0, 1, None),
+        Res::SendFail => (t, 1, None),
+        Res::Assume if kind == Some(FKind::InSendEat) => (t, 1, None),
+        Res::Assume | Res::ReadFail => (0, t, None),
+        Res::Read(m) => (0, 0, Some(m)),
+    };
+    Ev::Fut { id, wb, rb, msg, tmo: false }
 }
 
 struct Gen {
@@ -1139,6 +1683,28 @@ impl Gen {
                 }
             }
         }
+    }
+
+    /// The completion of a future; in composed mode a request read from an inbound substream is a
+    /// request about a record key (label), so that the model computes the reply and the store effect.
+    fn completion(&mut self, compose: bool, id: u64, kind: FKind, res: Res, how: u64, rks: &[u64]) -> Ev {
+        if compose && kind == FKind::InRead {
+            if let Res::Read(m) = &res {
+                let rk = if !rks.is_empty() && self.rng.chance(65) { self.rng.pick(rks) } else { 300 + self.rng.below(4) };
+                let rq = match m {
+                    Msg::FindNode(_) => Some(Req::FindNode(rk)),
+                    Msg::PutValue => Some(Req::PutValue(rk)),
+                    Msg::GetRecord { .. } => Some(Req::GetValue(rk)),
+                    Msg::GetProviders { .. } => Some(Req::GetProviders(rk)),
+                    Msg::AddProvider(v) => Some(Req::AddProvider(*v)),
+                    Msg::Invalid => None,
+                };
+                if let Some(rq) = rq {
+                    return Ev::InReq { id, rq };
+                }
+            }
+        }
+        fut_ev(id, Some(kind), res, how)
     }
 
     /// A message fitting the query the future belongs to (tag of the query in the engine).
@@ -1226,9 +1792,9 @@ impl Gen {
 
 /// One adaptive run: a small network with faults, a few user operations, then (usually) the
 /// environment discharges everything it still owes.
-fn generate(seed: u64, tier_long: bool) -> Option<(Vec<u64>, Vec<u64>)> {
+fn generate(seed: u64, tier_long: bool, cap: u64, compose: bool, stale: bool) -> Option<(Vec<u64>, Vec<u64>)> {
     let mut rng = Rng::new(seed);
-    let n = rng.range(2, 7);
+    let n = if stale { rng.range(4, 7) } else { rng.range(2, 7) };
     let k = rng.pick(&[1u64, 2, 3, 20, 20, 20]);
     let mut mgr = Vec::new();
     let mut known = Vec::new();
@@ -1238,14 +1804,19 @@ fn generate(seed: u64, tier_long: bool) -> Option<(Vec<u64>, Vec<u64>)> {
             known.push(p);
         }
     }
-    let h = Header { k, mgr, known };
+    // composed mode: one history in four with manual routing-table updates, one in four with manual
+    // validation of incoming records
+    let manual_rt = compose && rng.chance(25);
+    let manual_val = compose && rng.chance(25);
+    let mode = compose as u64 | (stale as u64) << 1 | (manual_rt as u64) << 2 | (manual_val as u64) << 3;
+    let h = Header { k, mgr, known, cap, mode, pool: MAX_POOL };
     let mut g = Gen { rng, n, k, next_q: 0, next_inbound: INBOUND_BASE, answered: Vec::new(), dial_answered: Vec::new() };
     let rt = runtime();
     // unconstrained: tokio's cooperative budget would make channel polls return Pending spuriously
     // in a task that never yields, i.e. delay events of long histories
     rt.block_on(tokio::task::unconstrained(async {
         let mut s = Sys::new(&h)?;
-        let mut trace = vec![1u64];
+        let mut trace = vec![if h.mode & 1 == 1 { 3u64 } else if h.cap == 0 { 1u64 } else { 2u64 }];
         let mut events: Vec<Vec<u64>> = Vec::new();
         let happy = g.rng.pick(&[30u64, 60, 60, 85, 100]);
         let max_cmds = g.rng.range(1, if tier_long { 5 } else { 3 });
@@ -1258,10 +1829,12 @@ fn generate(seed: u64, tier_long: bool) -> Option<(Vec<u64>, Vec<u64>)> {
             }
         }
         let mut cmds = 0;
+        let mut refreshes = 0;
+        let mut rks: Vec<u64> = Vec::new();
         for _ in 0..steps {
             let dials = s.owed_dials();
             let subs: Vec<(u64, u64)> = s.owed_subs().into_iter().filter(|(sid, _)| !g.answered.contains(sid)).collect();
-            let futs: Vec<(u64, FKind)> = s.inflight.iter().map(|(a, b)| (*a, *b)).collect();
+            let futs: Vec<(u64, FKind)> = s.live_futs();
             let live = !s.dump.queries.is_empty();
             let mut choices: Vec<u64> = Vec::new();
             if cmds < max_cmds {
@@ -1276,20 +1849,60 @@ fn generate(seed: u64, tier_long: bool) -> Option<(Vec<u64>, Vec<u64>)> {
             if !futs.is_empty() {
                 choices.extend([3, 3, 3, 3]);
             }
+            let refresh_possible = if compose { !s.timers.is_empty() } else { s.provided.len() == 1 };
+            if refresh_possible && futs.is_empty() && refreshes < if compose { 3 } else { 2 } && !s.parked {
+                choices.push(5);
+                if compose {
+                    choices.push(5);
+                }
+            }
             choices.push(4);
-            let ev = match g.rng.pick(&choices) {
+            if cap > 0 && (s.parked || g.rng.chance(35)) {
+                events.extend(s.apply(&Ev::Recv, &mut trace).await);
+                continue;
+            }
+            let choice = g.rng.pick(&choices);
+            if cap > 0 && (choice == 0 || choice == 5) {
+                // a command is issued with an empty channel (its seeds are read from the snapshot)
+                for _ in 0..64 {
+                    events.extend(s.apply(&Ev::Recv, &mut trace).await);
+                    if s.last_recv_none && !s.parked {
+                        break;
+                    }
+                }
+            }
+            let ev = match choice {
                 0 => {
                     cmds += 1;
                     let q = g.next_q;
                     g.next_q += 1;
                     let qtag = g.rng.below(3);
                     let qn = g.rng.range(1, 4);
-                    if g.rng.chance(25) {
+                    if compose {
+                        // a record key used before gives get_record a local hit
+                        let rk = if !rks.is_empty() && g.rng.chance(60) { g.rng.pick(&rks) } else { q };
+                        if g.rng.chance(20) {
+                            let given = g.peers_list(4, true);
+                            Ev::UPutToPeers { q, qtag, qn, rk: q, given }
+                        } else {
+                            let uc = g.rng.below(5);
+                            if uc == 1 {
+                                rks.push(q);
+                            }
+                            // few provider keys: start_providing the same key again arms a second timer
+                            let rk = match uc {
+                                1 => q,
+                                2 => 500 + g.rng.below(3),
+                                _ => rk,
+                            };
+                            Ev::UCmd { q, uc, qtag, qn, rk }
+                        }
+                    } else if g.rng.chance(25) {
                         let peers = g.peers_list(4, true);
                         Ev::PutToPeers { q, qtag, qn, peers }
                     } else {
                         let ctag = g.rng.below(5);
-                        let local = ctag == 3 && g.rng.chance(30);
+                        let local = (ctag == 3 && g.rng.chance(30)) as u64;
                         Ev::Cmd { q, ctag, qtag, qn, local, dists: vec![], seeds: vec![] }
                     }
                 }
@@ -1302,6 +1915,10 @@ fn generate(seed: u64, tier_long: bool) -> Option<(Vec<u64>, Vec<u64>)> {
                         if s.conns.contains_key(&p) {
                             // the stale connection goes away first
                             events.extend(s.apply(&Ev::Closed(p), &mut trace).await);
+                            if s.parked {
+                                // the loop blocks on the full event channel: it takes no event now
+                                continue;
+                            }
                         }
                         Ev::Established(p, g.rng.chance(90))
                     } else {
@@ -1321,12 +1938,25 @@ fn generate(seed: u64, tier_long: bool) -> Option<(Vec<u64>, Vec<u64>)> {
                         Ev::OpenFail(sid)
                     }
                 }
+                5 => {
+                    refreshes += 1;
+                    let q = g.next_q;
+                    g.next_q += 1;
+                    if compose {
+                        // the earliest timer of the store
+                        let rk = s.timers.iter().min_by_key(|t| t.1).map(|t| t.0).unwrap_or(0);
+                        Ev::UFire { q, rk }
+                    } else {
+                        let (label, _, qtag, qn) = s.provided[0];
+                        Ev::Cmd { q, ctag: 5, qtag, qn, local: label + 1, dists: vec![], seeds: vec![] }
+                    }
+                }
                 3 => {
                     let (id, kind) = g.rng.pick(&futs);
                     let qtag = fut_query_tag(&s, id);
                     let res = g.result_for(kind, qtag, happy);
                     let how = if futs.len() == 1 && g.rng.chance(25) { 1 } else { 0 };
-                    Ev::Fut { id, res, how }
+                    g.completion(compose, id, kind, res, how, &rks)
                 }
                 _ => {
                     // noise: things that happen without being asked for
@@ -1352,7 +1982,7 @@ fn generate(seed: u64, tier_long: bool) -> Option<(Vec<u64>, Vec<u64>)> {
                         }
                         7 => Ev::OpenFail(BOGUS_BASE + g.rng.below(50)),
                         8 => Ev::DialFail(p),
-                        9 => Ev::Fut { id: BOGUS_BASE + g.rng.below(50), res: Res::SendOk, how: 0 },
+                        9 => fut_ev(BOGUS_BASE + g.rng.below(50), None, Res::SendOk, 0),
                         10 => {
                             if s.conns.contains_key(&p) {
                                 Ev::Opened(p, BOGUS_BASE + g.rng.below(50))
@@ -1364,6 +1994,18 @@ fn generate(seed: u64, tier_long: bool) -> Option<(Vec<u64>, Vec<u64>)> {
                     }
                 }
             };
+            let ev = match ev {
+                Ev::Nop if compose => match g.rng.below(5) {
+                    0 | 1 => {
+                        let rk = 200 + g.rng.below(3);
+                        rks.push(rk);
+                        Ev::UStore(rk)
+                    }
+                    2 => Ev::UStop(500 + g.rng.below(3)),
+                    _ => Ev::UAddKnown(g.rng.below(MAX_POOL), g.rng.chance(80)),
+                },
+                e => e,
+            };
             events.extend(s.apply(&ev, &mut trace).await);
         }
         // the environment discharges what it owes: every dial, substream and future, once
@@ -1371,11 +2013,13 @@ fn generate(seed: u64, tier_long: bool) -> Option<(Vec<u64>, Vec<u64>)> {
             for _ in 0..400 {
                 let dials = s.owed_dials();
                 let subs: Vec<(u64, u64)> = s.owed_subs().into_iter().filter(|(sid, _)| !g.answered.contains(sid)).collect();
-                let futs: Vec<(u64, FKind)> = s.inflight.iter().map(|(a, b)| (*a, *b)).collect();
-                let ev = if let Some((id, kind)) = futs.first().copied() {
+                let futs: Vec<(u64, FKind)> = s.live_futs();
+                let ev = if s.parked {
+                    Ev::Recv
+                } else if let Some((id, kind)) = futs.first().copied() {
                     let qtag = fut_query_tag(&s, id);
                     let res = g.result_for(kind, qtag, happy);
-                    Ev::Fut { id, res, how: 0 }
+                    g.completion(compose, id, kind, res, 0, &rks)
                 } else if let Some((sid, p)) = subs.first().copied() {
                     g.answered.push(sid);
                     if g.rng.chance(happy.max(40)) {
@@ -1401,6 +2045,14 @@ fn generate(seed: u64, tier_long: bool) -> Option<(Vec<u64>, Vec<u64>)> {
                 events.extend(s.apply(&ev, &mut trace).await);
             }
         }
+        if cap > 0 {
+            for _ in 0..400 {
+                events.extend(s.apply(&Ev::Recv, &mut trace).await);
+                if s.last_recv_none && !s.parked {
+                    break;
+                }
+            }
+        }
         Some((encode_case(&h, &events), trace))
     }))
 }
@@ -1415,75 +2067,264 @@ fn fut_query_tag(s: &Sys, id: u64) -> Option<u8> {
 // ------------------------------------------------------------------ witnesses of the repaired defects
 
 fn witnesses() -> Vec<(&'static str, Header, Vec<Ev>)> {
-    let cmd = |q, ctag, qtag| Ev::Cmd { q, ctag, qtag, qn: 1, local: false, dists: vec![], seeds: vec![] };
+    let cmd = |q, ctag, qtag| Ev::Cmd { q, ctag, qtag, qn: 1, local: 0, dists: vec![], seeds: vec![] };
     vec![
         (
             // F-C16a: put_record_to_peers to a peer that cannot be dialed (no usable address)
             "f_c16a_put_to_peers_undialable",
-            Header { k: 20, mgr: vec![(0, 0)], known: vec![0] },
+            Header { k: 20, mgr: vec![(0, 0)], known: vec![0], cap: 0, mode: 0, pool: MAX_POOL },
             vec![Ev::PutToPeers { q: 0, qtag: 1, qn: 1, peers: vec![0] }],
         ),
         (
             // F-C16a, second shape: lookup succeeds, then the only found node cannot be reached again
             "f_c16a_put_record_target_lost",
-            Header { k: 20, mgr: vec![(0, 1)], known: vec![0] },
+            Header { k: 20, mgr: vec![(0, 1)], known: vec![0], cap: 0, mode: 0, pool: MAX_POOL },
             vec![
                 cmd(0, 1, 0),
                 Ev::Established(0, true),
                 Ev::Opened(0, 0),
                 Ev::Mgr(0, 0),
                 Ev::Closed(0),
-                Ev::Fut { id: 0, res: Res::Read(Msg::FindNode(vec![])), how: 0 },
+                fut_ev(0, None, Res::Read(Msg::FindNode(vec![])), 0),
             ],
         ),
         (
             // F-C16b: the connection comes up but its task is already gone when the queued
             // PUT_VALUE wants its substream
             "f_c16b_established_open_fails",
-            Header { k: 20, mgr: vec![(0, 1)], known: vec![0] },
+            Header { k: 20, mgr: vec![(0, 1)], known: vec![0], cap: 0, mode: 0, pool: MAX_POOL },
             vec![Ev::PutToPeers { q: 0, qtag: 1, qn: 1, peers: vec![0] }, Ev::Established(0, false)],
         ),
         (
             // F-C16c: the peer answers FIND_NODE with bytes that do not decode
             "f_c16c_undecodable_response",
-            Header { k: 20, mgr: vec![(0, 2)], known: vec![0] },
+            Header { k: 20, mgr: vec![(0, 2)], known: vec![0], cap: 0, mode: 0, pool: MAX_POOL },
             vec![
                 Ev::Established(0, true),
                 cmd(0, 0, 0),
                 Ev::Opened(0, 0),
-                Ev::Fut { id: 0, res: Res::Read(Msg::Invalid), how: 0 },
+                fut_ev(0, None, Res::Read(Msg::Invalid), 0),
             ],
         ),
         (
             // F-C16c, second shape: ADD_PROVIDER sent back as the "response"
             "f_c16c_add_provider_as_response",
-            Header { k: 20, mgr: vec![(0, 2)], known: vec![0] },
+            Header { k: 20, mgr: vec![(0, 2)], known: vec![0], cap: 0, mode: 0, pool: MAX_POOL },
             vec![
                 Ev::Established(0, true),
                 cmd(0, 4, 0),
                 Ev::Opened(0, 0),
-                Ev::Fut { id: 0, res: Res::Read(Msg::AddProvider(true)), how: 0 },
+                fut_ev(0, None, Res::Read(Msg::AddProvider(true)), 0),
             ],
         ),
         (
             // F-C16d: dial, connection established, the substream opened for the queued action
             // fails to negotiate (peer does not speak the protocol)
             "f_c16d_open_failure_after_dial",
-            Header { k: 20, mgr: vec![(0, 1)], known: vec![0] },
+            Header { k: 20, mgr: vec![(0, 1)], known: vec![0], cap: 0, mode: 0, pool: MAX_POOL },
             vec![cmd(0, 0, 0), Ev::Established(0, true), Ev::OpenFail(0)],
+        ),
+        (
+            // the connection closes while the request is outstanding: the future fails, the query ends
+            "closed_while_request_outstanding",
+            Header { k: 20, mgr: vec![(0, 2)], known: vec![0], cap: 0, mode: 0, pool: MAX_POOL },
+            vec![
+                Ev::Established(0, true),
+                cmd(0, 0, 0),
+                Ev::Opened(0, 0),
+                Ev::Closed(0),
+                fut_ev(0, None, Res::ReadFail, 0),
+            ],
+        ),
+        (
+            // the store republishes a local provider: an ADD_PROVIDER operation nobody asked for, with an
+            // id from the shared counter, ends with exactly one terminal event
+            "provider_refresh",
+            Header { k: 20, mgr: vec![(0, 2)], known: vec![0], cap: 0, mode: 0, pool: MAX_POOL },
+            vec![
+                Ev::Established(0, true),
+                cmd(0, 2, 1),
+                Ev::Opened(0, 0),
+                fut_ev(0, None, Res::Read(Msg::FindNode(vec![])), 0),
+                Ev::Opened(0, 1),
+                fut_ev(1, None, Res::SendOk, 0),
+                Ev::Cmd { q: 1, ctag: 5, qtag: 1, qn: 1, local: 1, dists: vec![], seeds: vec![] },
+                Ev::Opened(0, 2),
+                fut_ev(2, None, Res::Read(Msg::FindNode(vec![])), 0),
+                Ev::Opened(0, 3),
+                fut_ev(3, None, Res::SendOk, 0),
+            ],
+        ),
+        (
+            // an event channel of one slot: get_record with a local record reports two events, the
+            // loop parks on the second until the user receives
+            "bounded_channel_parks",
+            Header { k: 20, mgr: vec![(0, 2)], known: vec![0], cap: 1, mode: 0, pool: MAX_POOL },
+            vec![
+                Ev::Cmd { q: 0, ctag: 3, qtag: 1, qn: 1, local: 1, dists: vec![], seeds: vec![] },
+                Ev::Recv,
+                Ev::Recv,
+                Ev::Recv,
+            ],
         ),
         (
             // a silent peer: the 15 s executor timeout ends the wait
             "silent_peer_times_out",
-            Header { k: 20, mgr: vec![(0, 2)], known: vec![0] },
+            Header { k: 20, mgr: vec![(0, 2)], known: vec![0], cap: 0, mode: 0, pool: MAX_POOL },
             vec![
                 Ev::Established(0, true),
                 cmd(0, 3, 1),
                 Ev::Opened(0, 0),
-                Ev::Fut { id: 0, res: Res::ReadFail, how: 1 },
+                fut_ev(0, None, Res::ReadFail, 1),
+            ],
+        ),
+        full_bucket_witness(),
+        (
+            // the peer never takes the PUT_VALUE frame: the executor's write timeout ends the send phase
+            "write_timeout_put_value",
+            Header { k: 20, mgr: vec![(0, 2)], known: vec![0], cap: 0, mode: 0, pool: MAX_POOL },
+            vec![
+                Ev::Established(0, true),
+                Ev::PutToPeers { q: 0, qtag: 1, qn: 1, peers: vec![0] },
+                Ev::Opened(0, 0),
+                fut_ev(0, Some(FKind::ReqEat), Res::SendFail, 1),
+            ],
+        ),
+        (
+            // requests of a remote peer are served while a user operation is in flight: the replies come
+            // from the routing table and the store, the operation still ends with exactly one event
+            "inbound_served_during_operation",
+            Header { k: 20, mgr: vec![(0, 2), (1, 2)], known: vec![0], cap: 0, mode: 1, pool: MAX_POOL },
+            vec![
+                Ev::Established(0, true),
+                Ev::Established(1, true),
+                Ev::UCmd { q: 0, uc: 0, qtag: 1, qn: 1, rk: 0 },
+                Ev::Inbound(1, INBOUND_BASE),
+                Ev::InReq { id: INBOUND_BASE, rq: Req::FindNode(7) },
+                Ev::UCmd { q: 1, uc: 1, qtag: 1, qn: 1, rk: 9 },
+                Ev::Inbound(1, INBOUND_BASE + 1),
+                Ev::InReq { id: INBOUND_BASE + 1, rq: Req::GetValue(9) },
+                fut_ev(INBOUND_BASE, Some(FKind::InSend), Res::SendOk, 0),
+                fut_ev(INBOUND_BASE + 1, Some(FKind::InSend), Res::SendFail, 0),
+                Ev::Opened(0, 0),
+                fut_ev(0, Some(FKind::ReqResp), Res::Read(Msg::FindNode(vec![])), 0),
+                Ev::Opened(0, 1),
+                fut_ev(1, Some(FKind::ReqResp), Res::Read(Msg::FindNode(vec![])), 0),
+                Ev::Opened(0, 2),
+                fut_ev(2, Some(FKind::ReqEat), Res::Read(Msg::PutValue), 0),
+            ],
+        ),
+        (
+            // IncomingRecordValidationMode::Manual: an inbound PUT_VALUE is acknowledged and reported but not
+            // stored; a GET_VALUE finds nothing until the user calls store_record
+            "manual_validation_store_record",
+            Header { k: 20, mgr: vec![(1, 2)], known: vec![1], cap: 0, mode: 1 | 8, pool: MAX_POOL },
+            vec![
+                Ev::Established(1, true),
+                Ev::Inbound(1, INBOUND_BASE),
+                Ev::InReq { id: INBOUND_BASE, rq: Req::PutValue(5) },
+                fut_ev(INBOUND_BASE, Some(FKind::InSendEat), Res::SendOk, 0),
+                Ev::Inbound(1, INBOUND_BASE + 1),
+                Ev::InReq { id: INBOUND_BASE + 1, rq: Req::GetValue(5) },
+                fut_ev(INBOUND_BASE + 1, Some(FKind::InSend), Res::SendOk, 0),
+                Ev::UStore(5),
+                Ev::Inbound(1, INBOUND_BASE + 2),
+                Ev::InReq { id: INBOUND_BASE + 2, rq: Req::GetValue(5) },
+                fut_ev(INBOUND_BASE + 2, Some(FKind::InSend), Res::SendOk, 0),
+            ],
+        ),
+        (
+            // RoutingTableUpdateMode::Manual: the peers of a reply are reported, the lookup uses them, the
+            // routing table does not change until the user calls add_known_peer
+            "manual_routing_table_update",
+            Header { k: 20, mgr: vec![(0, 2), (1, 0), (2, 0)], known: vec![0], cap: 0, mode: 1 | 4, pool: MAX_POOL },
+            vec![
+                Ev::Established(0, true),
+                Ev::UCmd { q: 0, uc: 0, qtag: 1, qn: 1, rk: 0 },
+                Ev::Opened(0, 0),
+                fut_ev(0, Some(FKind::ReqResp), Res::Read(Msg::FindNode(vec![1, 2])), 0),
+                Ev::UAddKnown(1, true),
+            ],
+        ),
+        (
+            // the store's refresh timers: start_providing the same key twice arms two timers; the first
+            // that fires republishes, after stop_providing the others fire without effect
+            "refresh_timers_stop_providing",
+            Header { k: 20, mgr: vec![(0, 2)], known: vec![0], cap: 0, mode: 1, pool: MAX_POOL },
+            vec![
+                Ev::Established(0, true),
+                Ev::UCmd { q: 0, uc: 2, qtag: 1, qn: 1, rk: 500 },
+                Ev::Opened(0, 0),
+                fut_ev(0, Some(FKind::ReqResp), Res::Read(Msg::FindNode(vec![])), 0),
+                Ev::Opened(0, 1),
+                fut_ev(1, Some(FKind::Send), Res::SendOk, 0),
+                Ev::UCmd { q: 1, uc: 2, qtag: 1, qn: 1, rk: 500 },
+                Ev::Opened(0, 2),
+                fut_ev(2, Some(FKind::ReqResp), Res::Read(Msg::FindNode(vec![])), 0),
+                Ev::Opened(0, 3),
+                fut_ev(3, Some(FKind::Send), Res::SendOk, 0),
+                Ev::UFire { q: 2, rk: 500 },
+                Ev::Opened(0, 4),
+                fut_ev(4, Some(FKind::ReqResp), Res::Read(Msg::FindNode(vec![])), 0),
+                Ev::Opened(0, 5),
+                fut_ev(5, Some(FKind::Send), Res::SendOk, 0),
+                Ev::UStop(500),
+                Ev::UFire { q: 3, rk: 500 },
+                Ev::UFire { q: 4, rk: 500 },
+            ],
+        ),
+        (
+            // peer timeout staleness: with a zero peer timeout a pending peer stops counting towards
+            // the parallelism factor at once, so one drain sends FIND_NODE to all five seeds (alpha = 3);
+            // every one of them stays owed until it answers
+            "stale_pending_peers_free_slots",
+            Header { k: 20, mgr: (0..5).map(|p| (p, 2)).collect(), known: (0..5).collect(), cap: 0, mode: 2, pool: MAX_POOL },
+            vec![
+                Ev::Established(0, true),
+                Ev::Established(1, true),
+                Ev::Established(2, true),
+                Ev::Established(3, true),
+                Ev::Established(4, true),
+                cmd(0, 0, 1),
+                Ev::Opened(0, 0),
+                Ev::Opened(4, 4),
+                fut_ev(0, None, Res::Read(Msg::FindNode(vec![])), 0),
+                fut_ev(4, None, Res::ReadFail, 0),
             ],
         ),
     ]
+}
+
+/// F-C16e: put_record_to_peers([X]) where X is not in the routing table and its bucket is full of
+/// disconnected peers. `routing_table.entry(X)` is then `Vacant(slot of the first replaceable
+/// node Y)`, whose address store is Y's: the record went to Y, a peer the user never named.
+fn full_bucket_witness() -> (&'static str, Header, Vec<Ev>) {
+    const POOL: u64 = 80;
+    let local = Key::from(mk_peer(500)).verif_raw();
+    let bucket = |l: u64| -> usize {
+        let k = Key::from(mk_peer(l)).verif_raw();
+        for i in 0..32 {
+            let x = local[i] ^ k[i];
+            if x != 0 {
+                return 255 - (i * 8 + x.leading_zeros() as usize);
+            }
+        }
+        0
+    };
+    let members: Vec<u64> = (0..POOL).filter(|l| bucket(*l) == 255).collect();
+    assert!(members.len() >= 21, "not enough peers in the furthest bucket");
+    let known: Vec<u64> = members[..20].to_vec();
+    let x = members[20];
+    let y = members[0];
+    (
+        "f_c16e_put_to_peers_full_bucket",
+        Header { k: 20, mgr: vec![(y, 1), (x, 1)], known, cap: 0, mode: 1, pool: POOL },
+        vec![
+            Ev::UPutToPeers { q: 0, qtag: 1, qn: 1, rk: 5, given: vec![x] },
+            Ev::Established(y, true),
+            Ev::Established(x, true),
+        ],
+    )
 }
 
 
@@ -1583,7 +2424,7 @@ pub fn main(args: &Args) {
         Ok(failed) if failed.is_empty() => eprintln!("c16: end-to-end stream ok (3 operations over loopback TCP)"),
         other => {
             eprintln!("c16: end-to-end stream FAILED: {:?}", other.ok());
-            let h = Header { k: 20, mgr: vec![(0, 0)], known: vec![0] };
+            let h = Header { k: 20, mgr: vec![(0, 0)], known: vec![0], cap: 0, mode: 0, pool: MAX_POOL };
             let e = Ev::PutToPeers { q: 0, qtag: 1, qn: 1, peers: vec![0] };
             out.emit(&encode_case(&h, &[e.encode()]), &[1, 1, 0, 0, 0, 0, 0, 0]);
         }
@@ -1592,6 +2433,12 @@ pub fn main(args: &Args) {
     let seed = args.u64("seed", 1);
     let long = args.str("tier") == Some("thorough");
     for i in 0..n {
-        run_one(|| generate(seed.wrapping_mul(1_000_003).wrapping_add(i), long), &[0], &mut out);
+        // every fifth history runs on an event channel of 1-3 slots
+        let cap = if i % 5 == 4 { 1 + (i / 5) % 3 } else { 0 };
+        // two of five run against the composed model (routing table and store computed)
+        let compose = i % 5 == 1 || i % 5 == 3;
+        // one of five with a zero peer timeout: every pending peer of a FIND_NODE-type lookup is stale
+        let stale = i % 10 == 0 || i % 10 == 3;
+        run_one(|| generate(seed.wrapping_mul(1_000_003).wrapping_add(i), long, cap, compose, stale), &[0], &mut out);
     }
 }
